@@ -172,21 +172,23 @@ func loadFindings(path string) ([]Finding, error) {
 // ---- result / evidence ----
 
 type Result struct {
-	Prop      string
-	Tier      string
-	Seed      int
-	Obls      []*Obligation
-	Floors    []Floor
-	Notes     []string
-	Rules     map[string]string
-	Configs   []string
-	Pkgs      int
-	Funcs     int
-	Stats     map[string]int
-	Fatal     []string
-	Insens    []string
-	Mutations int
-	Start     time.Time
+	Prop       string
+	Tier       string
+	Seed       int
+	Obls       []*Obligation
+	Floors     []Floor
+	Notes      []string
+	Normalised string
+	Expanded   []string
+	Rules      map[string]string
+	Configs    []string
+	Pkgs       int
+	Funcs      int
+	Stats      map[string]int
+	Fatal      []string
+	Insens     []string
+	Mutations  int
+	Start      time.Time
 }
 
 func (r *Result) merge(c *Ctx) {
@@ -333,6 +335,8 @@ func (r *Result) finish(verifDir string, findings []Finding) int {
 			"sensitivity_mutations": r.Mutations,
 			"insensitive":           r.Insens,
 			"notes":                 r.Notes,
+			"normalised_view":       r.Normalised,
+			"expanded_helpers":      r.Expanded,
 			"checker_cmd":           "bin/tvc -property " + r.Prop + " -tier " + r.Tier,
 			"trusted_base":          []string{"go/types", "golang.org/x/tools v0.29.0 (go/packages, go/cfg)", "rule tables in /verif/tvc"},
 		},
